@@ -1,6 +1,15 @@
 // C01 wrapper executor, injected into core/stores/sqlx with `go test -overlay`.
-// kinds: 7 commonSqlConn.ExecCtx on a sqlmock database whose Exec returns the told error,
-// 8 commonSqlConn.acceptable alone.  The breaker is a REAL one with a forced decision.
+// Every breaker-wrapped method of commonSqlConn on a sqlmock database whose driver returns the
+// told error (or whose rows cannot be scanned), plus commonSqlConn.acceptable alone:
+//
+//	7  ExecCtx                8  acceptable (predicate only)     9  Exec
+//	10 PrepareCtx            11 QueryRowCtx            12 QueryRowPartialCtx
+//	13 QueryRowsCtx          14 QueryRowsPartialCtx    15 TransactCtx
+//	16 Prepare  17 QueryRow  18 QueryRowPartial  19 QueryRows  20 QueryRowsPartial  21 Transact
+//
+// The connection is made by NewSqlConn("sqlmock", dsn, WithAcceptable...) (odd case ids) or
+// NewSqlConnFromDB (even); the breaker is a REAL one with a forced decision; "invoked" counts
+// how often the request body ran (= calls of the connection provider).
 package sqlx
 
 import (
@@ -17,9 +26,23 @@ import (
 	"github.com/zeromicro/go-zero/core/timex"
 )
 
-var verifOther = errors.New("verif: other error")
+var (
+	verifOther   = errors.New("verif: other error")
+	verifCustom1 = errors.New("verif: accepted by the first WithAcceptable")
+	verifCustom2 = errors.New("verif: accepted by the second WithAcceptable")
+	verifCustom3 = errors.New("verif: accepted by the third WithAcceptable")
+	verifDsnSeq  int
+)
 
-func verifDerr(class int64) error {
+// further downstream classes (the common ones are in core/breaker/verif_probe.go)
+const (
+	vdSqlCustom       = 13 // code = 10*i + n: the error the i-th WithAcceptable accepts, on a connection with n options
+	vdSqlConnErr      = 14 // the connection provider fails
+	vdSqlScanFail     = 15 // the query succeeds, the rows cannot be scanned into the destination
+	vdSqlScanDeadline = 16 // iterating the rows ends with context.DeadlineExceeded
+)
+
+func verifDerr(class, code int64) error {
 	switch class {
 	case breaker.VDNil:
 		return nil
@@ -37,8 +60,27 @@ func verifDerr(class int64) error {
 		return newAcceptableError(errors.New("verif: duplicate"))
 	case breaker.VDWrappedCanceled:
 		return fmt.Errorf("verif: %w", context.Canceled)
+	case vdSqlCustom:
+		switch code / 10 {
+		case 1:
+			return verifCustom1
+		case 2:
+			return verifCustom2
+		}
+		return verifCustom3
 	}
 	return verifOther
+}
+
+func verifSqlOpts(n int64) []SqlOption {
+	var opts []SqlOption
+	if n >= 1 {
+		opts = append(opts, WithAcceptable(func(err error) bool { return err == verifCustom1 }))
+	}
+	if n >= 2 {
+		opts = append(opts, WithAcceptable(func(err error) bool { return err == verifCustom2 }))
+	}
+	return opts
 }
 
 func TestVerifC01W(t *testing.T) {
@@ -59,22 +101,46 @@ func TestVerifC01W(t *testing.T) {
 	cancel()
 	for _, c := range cases {
 		out := breaker.VerifWOut{ID: c.ID}
-		for _, k := range c.Calls {
-			kind, rej, ctxdone, class := k[0], k[1] == 1, k[2] == 1, k[3]
-			derr := verifDerr(class)
-			db, mock, err := sqlmock.New()
+		for ci, k := range c.Calls {
+			kind, rej, ctxdone, class, code := k[0], k[1] == 1, k[2] == 1, k[3], k[4]
+			derr := verifDerr(class, code)
+			var nopts int64
+			if class == vdSqlCustom {
+				nopts = code % 10
+			}
+			// the connection: through the driver registry (NewSqlConn) or from a *sql.DB
+			var db *sql.DB
+			var mock sqlmock.Sqlmock
+			var sc SqlConn
+			verifDsnSeq++
+			dsn := fmt.Sprintf("verif-c01-%d-%d", os.Getpid(), verifDsnSeq)
+			if class == vdSqlConnErr {
+				sc = NewSqlConn("sqlmock", dsn+"-never-registered", verifSqlOpts(nopts)...)
+			} else if (c.ID+ci)%2 == 1 {
+				db, mock, err = sqlmock.NewWithDSN(dsn)
+				if err == nil {
+					sc = NewSqlConn("sqlmock", dsn, verifSqlOpts(nopts)...)
+				}
+			} else {
+				db, mock, err = sqlmock.New()
+				if err == nil {
+					sc = NewSqlConnFromDB(db, verifSqlOpts(nopts)...)
+				}
+			}
 			if err != nil {
 				out.Err = err.Error()
 				break
 			}
-			conn := NewSqlConnFromDB(db).(*commonSqlConn)
+			conn := sc.(*commonSqlConn)
 			if kind == 8 {
 				var b int64
 				if conn.acceptable(derr) {
 					b = 1
 				}
 				out.Obs = append(out.Obs, []int64{0, 0, 0, 0, breaker.VSBool, b})
-				db.Close()
+				if db != nil {
+					db.Close()
+				}
 				continue
 			}
 			p, err := breaker.VerifAttach(conn.brk)
@@ -82,21 +148,125 @@ func TestVerifC01W(t *testing.T) {
 				out.Err = err.Error()
 				break
 			}
+			var invoked int64
+			prov := conn.connProv
+			conn.connProv = func() (*sql.DB, error) {
+				invoked++
+				return prov()
+			}
 			p.VerifForce(rej)
 			before := p.Sums()
-			if derr == nil {
-				mock.ExpectExec("verif").WillReturnResult(sqlmock.NewResult(1, 1))
-			} else {
-				mock.ExpectExec("verif").WillReturnError(derr)
-			}
 			ctx := context.Background()
 			if ctxdone {
 				ctx = cancelled
 			}
-			_, e := conn.ExecCtx(ctx, "verif")
-			var invoked int64
-			if mock.ExpectationsWereMet() == nil {
-				invoked = 1
+			meth := kind
+			noctx := false
+			switch {
+			case kind == 7:
+				meth = 0
+			case kind == 9:
+				meth, noctx = 0, true
+			case kind >= 10 && kind <= 15:
+				meth = kind - 9
+			case kind >= 16 && kind <= 21:
+				meth, noctx = kind-15, true
+			}
+			var e error
+			var wantScan error
+			rows := func(n int) *sqlmock.Rows {
+				r := sqlmock.NewRows([]string{"v"})
+				for i := 0; i < n; i++ {
+					r.AddRow(i + 1)
+				}
+				return r
+			}
+			if mock != nil {
+				switch {
+				case meth == 0: // Exec
+					if derr == nil {
+						mock.ExpectExec("verif").WillReturnResult(sqlmock.NewResult(1, 1))
+					} else {
+						mock.ExpectExec("verif").WillReturnError(derr)
+					}
+				case meth == 1: // Prepare
+					if derr == nil {
+						mock.ExpectPrepare("verif")
+					} else {
+						mock.ExpectPrepare("verif").WillReturnError(derr)
+					}
+				case meth >= 2 && meth <= 5: // Query*
+					switch class {
+					case breaker.VDNil, vdSqlScanFail:
+						mock.ExpectQuery("verif").WillReturnRows(rows(2))
+					case vdSqlScanDeadline:
+						mock.ExpectQuery("verif").WillReturnRows(rows(2).RowError(0, context.DeadlineExceeded))
+					default:
+						mock.ExpectQuery("verif").WillReturnError(derr)
+					}
+				case meth == 6: // Transact
+					mock.ExpectBegin()
+					if derr == nil {
+						mock.ExpectCommit()
+					} else {
+						mock.ExpectRollback()
+					}
+				}
+			}
+			var one int
+			var many []int
+			var rowDest, rowsDest any = &one, &many
+			if class == vdSqlScanFail {
+				// destinations unmarshalRow / unmarshalRows cannot fill
+				rowDest, rowsDest = new(map[string]int), new(int)
+				wantScan = ErrUnsupportedValueType
+			}
+			if class == vdSqlScanDeadline {
+				wantScan = context.DeadlineExceeded
+			}
+			switch meth {
+			case 0:
+				if noctx {
+					_, e = conn.Exec("verif")
+				} else {
+					_, e = conn.ExecCtx(ctx, "verif")
+				}
+			case 1:
+				if noctx {
+					_, e = conn.Prepare("verif")
+				} else {
+					_, e = conn.PrepareCtx(ctx, "verif")
+				}
+			case 2:
+				if noctx {
+					e = conn.QueryRow(rowDest, "verif")
+				} else {
+					e = conn.QueryRowCtx(ctx, rowDest, "verif")
+				}
+			case 3:
+				if noctx {
+					e = conn.QueryRowPartial(rowDest, "verif")
+				} else {
+					e = conn.QueryRowPartialCtx(ctx, rowDest, "verif")
+				}
+			case 4:
+				if noctx {
+					e = conn.QueryRows(rowsDest, "verif")
+				} else {
+					e = conn.QueryRowsCtx(ctx, rowsDest, "verif")
+				}
+			case 5:
+				if noctx {
+					e = conn.QueryRowsPartial(rowsDest, "verif")
+				} else {
+					e = conn.QueryRowsPartialCtx(ctx, rowsDest, "verif")
+				}
+			case 6:
+				if noctx {
+					e = conn.Transact(func(Session) error { return derr })
+				} else {
+					e = conn.TransactCtx(ctx, func(context.Context, Session) error { return derr })
+				}
 			}
 			after := p.Sums()
 			var sk int64
@@ -107,6 +277,10 @@ func TestVerifC01W(t *testing.T) {
 				sk = breaker.VSBreakerUnavailable
 			case invoked == 0 && e == context.Canceled:
 				sk = breaker.VSCtxErr
+			case wantScan != nil && e == wantScan:
+				sk = breaker.VSSame
+			case class == vdSqlConnErr && e != breaker.ErrServiceUnavailable:
+				sk = breaker.VSSame // the provider's own error
 			case derr != nil && e == derr:
 				sk = breaker.VSSame
 			case e == breaker.ErrServiceUnavailable:
@@ -116,7 +290,9 @@ func TestVerifC01W(t *testing.T) {
 			}
 			out.Obs = append(out.Obs, []int64{invoked, after[0] - before[0], after[1] - before[1],
 				after[2] - before[2], sk, 0})
-			db.Close()
+			if db != nil {
+				db.Close()
+			}
 		}
 		w.Put(out)
 	}
